@@ -1,5 +1,5 @@
 SPECIFICATION Spec
 CONSTANTS
-  EnvNames = {"A", "B", "a"}
+  EnvNames = {"A", "B", "a", "env::A"}
 INVARIANT Report
 CHECK_DEADLOCK FALSE
